@@ -191,6 +191,9 @@ class ExportImport:
             pickler.dump(unpickler.load())
             data = newp.getvalue()
 
+            # The imported objects are new: abort / rollback must disown them.
+            self._creating[oid] = True
+
             if blob_filename is not None:
                 self._storage.storeBlob(oid, None, data, blob_filename,
                                         '', transaction)
